@@ -407,6 +407,11 @@ func genPayload(r *rand.Rand, amount *big.Int, wellFormedBias bool) string {
 	if !wellFormedBias && r.Intn(12) == 0 {
 		return []string{"", "{", "null", "[]", `{"type":5}`}[r.Intn(5)]
 	}
+	if r.Intn(14) == 0 {
+		// a well-formed command that carries a key the connector does not know (wallets add memos)
+		b, _ := json.Marshal(map[string]string{"type": typ, "recipient": rcp, "fee": fee, []string{"memo", "comment", "ref"}[r.Intn(3)]: "x"})
+		return string(b)
+	}
 	if r.Intn(12) == 0 {
 		// the same command with its keys spelled in another case: every part of the connector must read it the same way
 		up := func(k string) string {
